@@ -122,7 +122,11 @@ CHECKS = {
         "note": COMMON_NOTE,
         "technique": "symbolic execution of the real Python on z3-backed proxy scalars (decision-tree re-execution), exact parametric-LP stub, SMT (QF_LRA) obligations per path, counterexamples replayed on the unshimmed code",
     },
+    "C18": {
+        "text": "Symbolic execution of the real constraints_to_vertices (value checks, union with the boundary constraints, _substitute_in_termlist, termlist_to_polytope, the column fix-up, _get_feasible_point, _get_bounding_vertices incl. the no-interior fallback and the angular sort) with constraint constants, fixed values and axis limits as z3 Reals (coefficients concrete). The two C libraries below pacti's code are replaced by exact models under their documented contracts: Qhull's HalfspaceIntersection by solver-decided vertex enumeration (QhullError unless the interior point is strictly inside), math.atan2 by the exact angular order (half-plane, then sign of a cross product: QF_NRA). Per returning path: every returned point satisfies all constraints and limits at the fixed values, every returned point is a corner (two independent active rows), no corner is missing (free point quantified by the solver), consecutive points share an edge (boundary order); ValueError iff the slice is empty or a needed value is missing. What this does NOT establish: that Qhull itself enumerates vertices correctly and how HiGHS/Qhull behave within float tolerance of degeneracy; those are seen only through the replays on the unshimmed code.",
+        "design_ref": "DESIGN.md section 8 C18",
+        "note": COMMON_NOTE + " For C18 additionally trusted: the exact vertex-enumeration model of scipy.spatial.HalfspaceIntersection and the exact angular-order model of math.atan2 (pv/plots_shim.py); the two-variable LPs of the fallback are assumed to return a basic optimum.",
+        "technique": TECH + "; exact vertex-enumeration model of Qhull and exact angular-order model of atan2 (QF_NRA path conditions)",
+    },
 }
-NOT_APPLICABLE = {
-    "C18": "vertex set is computed by Qhull (scipy.spatial.HalfspaceIntersection, C) and ordered with atan2; the fallback depends on which optimal point HiGHS returns. None of this is encodable in linear/polynomial arithmetic without assuming the property in a stub (DESIGN section 9).",
-}
+NOT_APPLICABLE = {}
